@@ -362,8 +362,13 @@ def find_loops(body):
             continue
         if m.group(1) == 'do':
             k = m.end()
-            while body[k].isspace():
-                k += 1
+            while True:
+                while body[k].isspace():
+                    k += 1
+                mc = re.match(r'__CPROVER_\w+\s*\(', body[k:])
+                if not mc:
+                    break
+                k = match_close(body, k + mc.end() - 1) + 1
             if body[k] != '{':
                 raise ExtractionBreak('do-loop without braces')
             e = match_close(body, k, '{', '}')
@@ -372,7 +377,7 @@ def find_loops(body):
                 raise ExtractionBreak('do-loop tail not found')
             p = e + 1 + mm.end() - 1
             q = match_close(body, p)
-            res.append((m.start(), q + 1, 'do'))
+            res.append((m.start(), m.end(), 'do', q + 1))
             pending_do_end.add(p)
     for m in _loop_re.finditer(body):
         if _in_literal(body, m.start()):
@@ -387,7 +392,7 @@ def find_loops(body):
         if k in pending_do_end:
             continue
         q = match_close(body, k)
-        res.append((m.start(), q + 1, m.group(1)))
+        res.append((m.start(), q + 1, m.group(1), q + 1))
     res.sort()
     return res
 
